@@ -8,6 +8,7 @@ package e2e
 import (
 	"bufio"
 	"bytes"
+	stls "crypto/tls"
 	"errors"
 	"fmt"
 	"io"
@@ -18,6 +19,7 @@ import (
 	"testing"
 	"time"
 
+	ltls "github.com/lesismal/llib/std/crypto/tls"
 	"github.com/lesismal/nbio"
 	"github.com/lesismal/nbio/logging"
 	"github.com/lesismal/nbio/nbhttp"
@@ -49,6 +51,7 @@ type CliPlan struct {
 	Reqs      []CliReq `json:"reqs"`
 	DialFail  []int    `json:"dial_fail,omitempty"` // dial attempts (0-based) that fail
 	Executor  string   `json:"executor,omitempty"`  // "" (default pool) | go
+	TLS       bool     `json:"tls,omitempty"`       // https: the client side is llib's TLS (transformed), the scripted server crypto/tls
 }
 
 func genCliPlan(r *simrt.Rand, c *HTTPCase) {
@@ -78,6 +81,7 @@ func genCliPlan(r *simrt.Rand, c *HTTPCase) {
 	if faulty && r.Bool(0.4) {
 		p.DialFail = append(p.DialFail, r.Intn(3))
 	}
+	p.TLS = r.Bool(0.2)
 	c.Side = "client"
 	c.Cli = p
 	c.Conns = nil
@@ -191,13 +195,13 @@ func shrinkCli(c *HTTPCase) []interface{} {
 }
 
 type cliReqState struct {
-	plan     CliReq
-	id       string
-	issued   bool
-	calls    int
-	gotResp  bool
-	err      error
-	served   int // times the scripted server saw it
+	plan    CliReq
+	id      string
+	issued  bool
+	calls   int
+	gotResp bool
+	err     error
+	served  int // times the scripted server saw it
 }
 
 func runHTTPClient(t *testing.T, c *HTTPCase, trace bool) *common.Outcome {
@@ -243,7 +247,24 @@ func runHTTPClient(t *testing.T, c *HTTPCase, trace bool) *common.Outcome {
 				simrt.GoNamed(fmt.Sprintf("srv-conn%d", n), func() {
 					simrt.MarkDaemon()
 					defer conn.Close()
-					br := bufio.NewReader(conn)
+					var rw net.Conn = conn
+					if p.TLS {
+						cert, err := stls.X509KeyPair([]byte(simCertPEM), []byte(simKeyPEM))
+						if err != nil {
+							return
+						}
+						// (one goroutine per connection reads and writes: nothing ever waits for one
+						// of crypto/tls's real mutexes; writes are pumped all the same)
+						// TLS 1.2 at most: llib's TLS 1.3 client does not get through a handshake with
+						// the crypto/tls server of this Go release ("bad record MAC"), on real sockets
+						// just the same - a matter of the dependency, noted in DESIGN.md 11.2
+						tc := stls.Server(newPumpConn(conn), &stls.Config{Certificates: []stls.Certificate{cert}, MaxVersion: stls.VersionTLS12})
+						if err := tc.Handshake(); err != nil {
+							return
+						}
+						rw = tc
+					}
+					br := bufio.NewReader(rw)
 					for {
 						rq, err := http.ReadRequest(br)
 						if err != nil {
@@ -293,7 +314,7 @@ func runHTTPClient(t *testing.T, c *HTTPCase, trace bool) *common.Outcome {
 							if n <= 0 || n > len(msg) {
 								n = len(msg)
 							}
-							if _, err := conn.Write(msg[:n]); err != nil {
+							if _, err := rw.Write(msg[:n]); err != nil {
 								return
 							}
 							msg = msg[n:]
@@ -340,10 +361,14 @@ func runHTTPClient(t *testing.T, c *HTTPCase, trace bool) *common.Outcome {
 		idle := time.Duration(p.IdleUs) * time.Microsecond
 		var cli *nbhttp.Client
 		var cc *nbhttp.ClientConn
+		var tlsConf *ltls.Config
+		if p.TLS {
+			tlsConf = &ltls.Config{InsecureSkipVerify: true}
+		}
 		if p.API == "client" {
-			cli = &nbhttp.Client{Engine: eng, Timeout: timeout, MaxConnsPerHost: int32(p.MaxConns), IdleConnTimeout: idle, Dial: dial}
+			cli = &nbhttp.Client{Engine: eng, Timeout: timeout, MaxConnsPerHost: int32(p.MaxConns), IdleConnTimeout: idle, Dial: dial, TLSClientConfig: tlsConf}
 		} else {
-			cc = &nbhttp.ClientConn{Engine: eng, Timeout: timeout, IdleConnTimeout: idle, Dial: dial}
+			cc = &nbhttp.ClientConn{Engine: eng, Timeout: timeout, IdleConnTimeout: idle, Dial: dial, TLSClientConfig: tlsConf}
 		}
 		callback := func(st *cliReqState) func(res *http.Response, conn net.Conn, err error) {
 			return func(res *http.Response, conn net.Conn, err error) {
@@ -353,6 +378,9 @@ func runHTTPClient(t *testing.T, c *HTTPCase, trace bool) *common.Outcome {
 					return
 				}
 				st.err = err
+				if err != nil && os.Getenv("VERIF_DEBUG_LOGS") != "" {
+					fmt.Fprintf(os.Stderr, "CLIENT CALLBACK ERROR %s: %v\n", st.id, err)
+				}
 				if res == nil {
 					if err == nil {
 						fail("callback-without-outcome", class, "the callback of request %s got neither a response nor an error", st.id)
@@ -360,6 +388,9 @@ func runHTTPClient(t *testing.T, c *HTTPCase, trace bool) *common.Outcome {
 					return
 				}
 				st.gotResp = true
+				if p.TLS {
+					o.Probe("client_tls_response_delivered")
+				}
 				got := res.Header.Get("X-Id")
 				var body []byte
 				if res.Body != nil {
@@ -381,7 +412,11 @@ func runHTTPClient(t *testing.T, c *HTTPCase, trace bool) *common.Outcome {
 				defer func() { done++ }()
 				for i := w; i < len(reqs); i += p.Callers {
 					st := reqs[i]
-					rq, err := http.NewRequest("GET", "http://127.0.0.1:8090/"+st.id, nil)
+					scheme := "http"
+					if p.TLS {
+						scheme = "https"
+					}
+					rq, err := http.NewRequest("GET", scheme+"://127.0.0.1:8090/"+st.id, nil)
 					if err != nil {
 						o.Infra = err.Error()
 						return
@@ -474,6 +509,9 @@ func runHTTPClient(t *testing.T, c *HTTPCase, trace bool) *common.Outcome {
 	}
 	o.NonTrivial = len(p.Reqs) >= 2
 	o.Probe("client_side_run")
+	if p.TLS {
+		o.Probe("tls_run")
+	}
 	if res.HarnessErr != "" {
 		o.Infra = res.HarnessErr
 	}
